@@ -36,6 +36,12 @@ type State struct {
 	// phiSrc: key of the operand that flowed into a phi on this path (for
 	// rules that ask "which value reached this use"); not used for facts.
 	phiSrc map[string]string
+	// tuple: keys of the results of an inlined helper call (call register ->
+	// element keys), consumed by Extract.
+	tuple map[string][]string
+	// armed: targets and barriers are active (false only while running up to
+	// a From instruction that lies inside an inlined helper).
+	armed bool
 }
 
 // fact looks a key up in the pinned assumptions, then in the path facts.
@@ -48,7 +54,7 @@ func (s *State) fact(k string) (bool, bool) {
 }
 
 func newState() *State {
-	return &State{Facts: map[string]bool{}, alias: map[string]string{}, mem: map[string]string{}, phiSrc: map[string]string{}}
+	return &State{Facts: map[string]bool{}, alias: map[string]string{}, mem: map[string]string{}, phiSrc: map[string]string{}, tuple: map[string][]string{}, armed: true}
 }
 
 func (s *State) clone() *State {
@@ -56,6 +62,11 @@ func (s *State) clone() *State {
 	for k, v := range s.phiSrc {
 		n.phiSrc[k] = v
 	}
+	n.tuple = make(map[string][]string, len(s.tuple))
+	for k, v := range s.tuple {
+		n.tuple[k] = v
+	}
+	n.armed = s.armed
 	for k, v := range s.Facts {
 		n.Facts[k] = v
 	}
@@ -85,6 +96,12 @@ func (s *State) hash() string {
 	}
 	for k, v := range s.phiSrc {
 		parts = append(parts, "P"+k+"="+v)
+	}
+	for k, v := range s.tuple {
+		parts = append(parts, "T"+k+"="+strings.Join(v, ","))
+	}
+	if !s.armed {
+		parts = append(parts, "unarmed")
 	}
 	sort.Strings(parts)
 	return strings.Join(parts, ";")
@@ -128,6 +145,10 @@ type Explorer struct {
 	pinned map[string]bool
 	valPin map[string]bool // register name -> assumed truth
 	regBlock map[string]*ssa.BasicBlock
+	allocs   map[string]*ssa.Alloc
+	regFns   map[*ssa.Function]bool
+	// NoInline disables the inlining of transparent helpers.
+	NoInline bool
 	// Debug, when non-nil, collects the distinct state hashes per block.
 	Debug map[int]map[string]bool
 }
@@ -136,11 +157,11 @@ type Explorer struct {
 // the conditions a rule assumes.
 func (x *Explorer) KeyAtEntry(v ssa.Value) string {
 	x.init()
-	if in, ok := v.(ssa.Instruction); ok && in.Parent() == x.Fn {
+	if in, ok := v.(ssa.Instruction); ok && (in.Parent() == x.Fn || x.P.Transparent(in.Parent())) {
 		// value pin: "whenever this instruction is evaluated it yields the
 		// assumed truth"; the fact is recorded under the key the value has
 		// at that moment (memory-dependent keys differ from the entry form).
-		return "@" + v.Name()
+		return "@" + x.rn(v)
 	}
 	return x.render(v, newState(), 0)
 }
@@ -160,7 +181,7 @@ func (x *Explorer) SourceKey(v ssa.Value, st *State) string {
 		if !ok {
 			break
 		}
-		if k, ok := st.phiSrc[p.Name()]; ok {
+		if k, ok := st.phiSrc[x.rn(p)]; ok {
 			return k
 		}
 		break
@@ -171,6 +192,44 @@ func (x *Explorer) SourceKey(v ssa.Value, st *State) string {
 // KeyOf renders v in the given state.
 func (x *Explorer) KeyOf(v ssa.Value, st *State) string {
 	return x.key(v, st)
+}
+
+var helperIDs = map[*ssa.Function]int{}
+
+// rn is the path-unique name of a register: tN inside the explored function,
+// tN_hK inside helper K inlined into it.
+func (x *Explorer) rn(v ssa.Value) string {
+	f := v.Parent()
+	if f == nil || f == x.Fn {
+		return v.Name()
+	}
+	id, ok := helperIDs[f]
+	if !ok {
+		id = len(helperIDs) + 1
+		helperIDs[f] = id
+	}
+	return v.Name() + "_h" + itoa(id)
+}
+
+// addRegs indexes the registers of fn (for dominance pruning).
+func (x *Explorer) addRegs(fn *ssa.Function) {
+	if x.regFns[fn] {
+		return
+	}
+	x.regFns[fn] = true
+	for _, b := range fn.Blocks {
+		for _, in := range b.Instrs {
+			if v, ok := in.(ssa.Value); ok {
+				x.regBlock[x.rn(v)] = b
+				if a, isA := in.(*ssa.Alloc); isA {
+					x.allocs[x.rn(v)] = a
+				}
+			}
+		}
+	}
+	for _, l := range fn.Locals {
+		x.allocs[x.rn(l)] = l
+	}
 }
 
 var regsCache = map[string][]string{}
@@ -203,13 +262,9 @@ func (x *Explorer) init() {
 	}
 	if x.regBlock == nil {
 		x.regBlock = map[string]*ssa.BasicBlock{}
-		for _, b := range x.Fn.Blocks {
-			for _, in := range b.Instrs {
-				if v, ok := in.(ssa.Value); ok {
-					x.regBlock[v.Name()] = b
-				}
-			}
-		}
+		x.allocs = map[string]*ssa.Alloc{}
+		x.regFns = map[*ssa.Function]bool{}
+		x.addRegs(x.Fn)
 	}
 	if x.MaxStates == 0 {
 		x.MaxStates = 400000
@@ -229,6 +284,12 @@ func (x *Explorer) key(v ssa.Value, st *State) string {
 		}
 		return "c:" + c.Value.ExactString()
 	case *ssa.Parameter:
+		if c.Parent() != nil && c.Parent() != x.Fn {
+			if a, ok := st.alias[x.rn(c)]; ok {
+				return a
+			}
+			return "p:" + x.rn(c)
+		}
 		return "p:" + c.Name()
 	case *ssa.FreeVar:
 		return "fv:" + c.Name()
@@ -239,14 +300,14 @@ func (x *Explorer) key(v ssa.Value, st *State) string {
 	case *ssa.Builtin:
 		return "bi:" + c.Name()
 	}
-	if a, ok := st.alias[v.Name()]; ok {
+	if a, ok := st.alias[x.rn(v)]; ok {
 		return a
 	}
 	switch v.(type) {
 	case *ssa.Alloc, *ssa.MakeClosure, *ssa.MakeMap, *ssa.MakeChan, *ssa.MakeSlice:
-		return "new:" + v.Name()
+		return "new:" + x.rn(v)
 	}
-	return v.Name()
+	return x.rn(v)
 }
 
 // render computes the structural key of v, recursing into operands (depth
@@ -330,10 +391,10 @@ func (x *Explorer) define(in ssa.Instruction, st *State) {
 	}
 	set := func(k string) {
 		if len(k) > maxKeyLen {
-			delete(st.alias, v.Name())
+			delete(st.alias, x.rn(v))
 			return
 		}
-		st.alias[v.Name()] = k
+		st.alias[x.rn(v)] = k
 	}
 	switch i := in.(type) {
 	case *ssa.Alloc:
@@ -354,7 +415,7 @@ func (x *Explorer) define(in ssa.Instruction, st *State) {
 				z = "nil"
 			}
 			if z != "" {
-				st.mem["new:"+i.Name()] = z
+				st.mem["new:"+x.rn(i)] = z
 			}
 		}
 	case *ssa.FieldAddr:
@@ -430,6 +491,12 @@ func (x *Explorer) define(in ssa.Instruction, st *State) {
 	case *ssa.MakeInterface:
 		set("mi(" + x.key(i.X, st) + ")")
 	case *ssa.Extract:
+		if tv, ok := i.Tuple.(ssa.Value); ok {
+			if el, has := st.tuple[x.rn(tv)]; has && i.Index < len(el) {
+				set(el[i.Index])
+				return
+			}
+		}
 		set(x.key(i.Tuple, st) + "#" + itoa(i.Index))
 	case *ssa.Call:
 		name := x.P.CalleeName(i)
@@ -452,7 +519,7 @@ func (x *Explorer) define(in ssa.Instruction, st *State) {
 		case name == "builtin:len" || name == "builtin:cap":
 			set(name[8:] + "(" + argKeys() + ")")
 		case errNew[name]:
-			set("nonnil:" + v.Name())
+			set("nonnil:" + x.rn(v))
 		case errWrap[name]:
 			if len(cc.Args) > 0 {
 				set("wrap(" + x.key(cc.Args[0], st) + ")")
@@ -648,7 +715,7 @@ func (x *Explorer) Truth(v ssa.Value, st *State) (val, known bool) {
 	// the register itself: its value cannot change although the key it was
 	// aliased to (a memory-dependent expression) may have been invalidated
 	if _, isInstr := v.(ssa.Instruction); isInstr {
-		if f, ok := st.fact("r:" + v.Name()); ok {
+		if f, ok := st.fact("r:" + x.rn(v)); ok {
 			return f, true
 		}
 	}
@@ -772,12 +839,60 @@ func (x *Explorer) IsSuccessReturn(in ssa.Instruction, st *State) bool {
 
 func isErrorType(t types.Type) bool { return types.TypeString(t, nil) == "error" }
 
+// frame is one activation on the inlining stack.
+type frame struct {
+	fn   *ssa.Function
+	call ssa.CallInstruction // call site in the caller (nil for the explored function)
+	ret  *ssa.BasicBlock     // caller block to resume in
+	idx  int                 // index of the instruction after the call
+}
+
 type workItem struct {
-	block *ssa.BasicBlock
-	start int
-	pred  *ssa.BasicBlock
-	st    *State
-	trace []int
+	block  *ssa.BasicBlock
+	start  int
+	pred   *ssa.BasicBlock
+	st     *State
+	trace  []int
+	frames []frame
+}
+
+const maxInlineDepth = 4
+
+func frameKey(fr []frame) string {
+	if len(fr) == 0 {
+		return ""
+	}
+	var sb strings.Builder
+	for _, f := range fr {
+		sb.WriteString(itoa(helperIDs[f.fn]))
+		sb.WriteByte('@')
+		sb.WriteString(itoa(f.ret.Index))
+		sb.WriteByte('.')
+		sb.WriteString(itoa(f.idx))
+		sb.WriteByte('/')
+	}
+	return sb.String()
+}
+
+// inlinable: a static call to a transparent helper (a module function no rule
+// knows by name), not already on the stack.
+func (x *Explorer) inlinable(c ssa.CallInstruction, frames []frame) *ssa.Function {
+	if x.NoInline || len(frames) >= maxInlineDepth {
+		return nil
+	}
+	if _, isCall := c.(*ssa.Call); !isCall {
+		return nil
+	}
+	f := c.Common().StaticCallee()
+	if f == nil || !x.P.Transparent(f) || f == x.Fn {
+		return nil
+	}
+	for _, fr := range frames {
+		if fr.fn == f {
+			return nil
+		}
+	}
+	return f
 }
 
 // Run explores and fills Hits.
@@ -807,16 +922,26 @@ func (x *Explorer) Run() []Hit {
 		st0.pin[k] = v != neg
 	}
 	var work []workItem
-	if x.From != nil {
+	fromInHelper := x.From != nil && x.From.Parent() != x.Fn
+	switch {
+	case x.From != nil && !fromInHelper:
 		// a value pin on the start instruction itself
 		if v, ok := x.From.(ssa.Value); ok {
-			if want, pinned := x.valPin[v.Name()]; pinned {
-				st0.Facts[v.Name()] = want
+			if want, pinned := x.valPin[x.rn(v)]; pinned {
+				st0.Facts[x.rn(v)] = want
+				st0.Facts["r:"+x.rn(v)] = want
 			}
 		}
 		b := x.From.Block()
 		work = append(work, workItem{block: b, start: InstrIndex(x.From) + 1, st: st0, trace: []int{b.Index}})
-	} else {
+	case fromInHelper:
+		// the start lies inside an inlined helper: run from the entry of the
+		// explored function with targets and barriers disarmed until the
+		// start instruction has executed, so that the helper returns into
+		// its real caller context.
+		st0.armed = false
+		work = append(work, workItem{block: x.Fn.Blocks[0], st: st0, trace: []int{0}})
+	default:
 		work = append(work, workItem{block: x.Fn.Blocks[0], st: st0, trace: []int{0}})
 	}
 	visited := map[string]bool{}
@@ -830,14 +955,15 @@ func (x *Explorer) Run() []Hit {
 		}
 		st := it.st
 		b := it.block
+		top := len(it.frames) == 0
 		if it.start == 0 {
 			x.enterBlock(b, it.pred, st)
-			h := itoa(b.Index) + "|" + st.hash()
+			h := frameKey(it.frames) + itoa(b.Index) + "|" + st.hash()
 			if visited[h] {
 				continue
 			}
 			visited[h] = true
-			if x.Debug != nil {
+			if x.Debug != nil && top {
 				if x.Debug[b.Index] == nil {
 					x.Debug[b.Index] = map[string]bool{}
 				}
@@ -850,11 +976,13 @@ func (x *Explorer) Run() []Hit {
 			if _, isPhi := in.(*ssa.Phi); isPhi {
 				continue
 			}
-			if x.Barrier != nil && x.Barrier(in, st) {
+			_, isRet := in.(*ssa.Return)
+			visible := st.armed && (top || !isRet)
+			if visible && x.Barrier != nil && x.Barrier(in, st) {
 				stopped = true
 				break
 			}
-			if x.Target != nil && x.Target(in, st) {
+			if visible && x.Target != nil && x.Target(in, st) {
 				x.Hits = append(x.Hits, Hit{Instr: in, Trace: append([]int(nil), it.trace...), St: st.clone()})
 				if x.StopAtTarget {
 					stopped = true
@@ -866,8 +994,84 @@ func (x *Explorer) Run() []Hit {
 				x.doStore(i, st)
 			case *ssa.MapUpdate:
 				st.dropIf(func(k string) bool { return strings.Contains(k, "*map") })
-			case *ssa.Return, *ssa.Panic:
+			case *ssa.Panic:
 				stopped = true
+			case *ssa.Return:
+				stopped = true
+				if !top {
+					// return into the caller: the call now looks like an
+					// ordinary call whose results carry the facts learnt
+					// inside; everything else about the helper is forgotten
+					fr := it.frames[len(it.frames)-1]
+					ns := st
+					hid := "_h" + itoa(helperIDs[fr.fn])
+					inHelper := func(k string) bool { return hasHelperReg(k, hid) }
+					if cv := fr.call.Value(); cv != nil {
+						res := func(r ssa.Value, name string) string {
+							k := x.key(r, st)
+							if len(k) <= maxKeyLen && !inHelper(k) {
+								return k
+							}
+							if len(k) <= maxKeyLen {
+								for _, src := range []map[string]bool{st.pin, st.Facts} {
+									for fk, fv := range src {
+										if mentions(fk, k) {
+											nk := replaceTok(fk, k, name)
+											if !inHelper(nk) {
+												ns.Facts[nk] = fv
+											}
+										}
+									}
+								}
+								if nonNilKey(k, st) {
+									ns.Facts[eqKey(name, "nil")] = false
+								}
+								if tv, known := truthOfKey(k, st); known {
+									ns.Facts[name] = tv
+									ns.Facts["r:"+name] = tv
+								}
+							}
+							return name
+						}
+						switch len(i.Results) {
+						case 0:
+						case 1:
+							k := res(i.Results[0], x.rn(cv))
+							if k != x.rn(cv) {
+								ns.alias[x.rn(cv)] = k
+							}
+						default:
+							var ks []string
+							for ri, r := range i.Results {
+								ks = append(ks, res(r, x.rn(cv)+"#"+itoa(ri)))
+							}
+							ns.tuple[x.rn(cv)] = ks
+						}
+					}
+					ns.dropIf(inHelper)
+					for r := range ns.alias {
+						if inHelper(r) {
+							delete(ns.alias, r)
+						}
+					}
+					for r := range ns.phiSrc {
+						if inHelper(r) || inHelper(ns.phiSrc[r]) {
+							delete(ns.phiSrc, r)
+						}
+					}
+					for r, ks := range ns.tuple {
+						bad := inHelper(r)
+						for _, k := range ks {
+							if inHelper(k) {
+								bad = true
+							}
+						}
+						if bad {
+							delete(ns.tuple, r)
+						}
+					}
+					work = append(work, workItem{block: fr.ret, start: fr.idx, st: ns, trace: it.trace, frames: it.frames[:len(it.frames)-1]})
+				}
 			case *ssa.RunDefers:
 				// deferred closures may store to captured cells; named
 				// error results keep their nil-ness (checked separately by
@@ -881,15 +1085,37 @@ func (x *Explorer) Run() []Hit {
 					}
 				}
 			case *ssa.If:
-				x.branch(i, b, st, it.trace, &work)
+				x.branch(i, b, st, it.trace, &work, it.frames)
 				stopped = true
 			case *ssa.Jump:
 				if len(b.Succs) == 1 {
-					work = append(work, workItem{block: b.Succs[0], pred: b, st: st, trace: appendTrace(it.trace, b.Succs[0].Index)})
+					work = append(work, workItem{block: b.Succs[0], pred: b, st: st, trace: x.appendTr(it.trace, b.Succs[0], top), frames: it.frames})
 				}
 				stopped = true
 			default:
 				if c, ok := in.(ssa.CallInstruction); ok {
+					if callee := x.inlinable(c, it.frames); callee != nil {
+						// enter the helper: bind parameters to argument keys
+						x.addRegs(callee)
+						args := c.Common().Args
+						for pi, p := range callee.Params {
+							if pi < len(args) {
+								k := x.key(args[pi], st)
+								if len(k) <= maxKeyLen {
+									st.alias[x.rn(p)] = k
+								} else {
+									delete(st.alias, x.rn(p))
+								}
+							}
+						}
+						nf := append(append([]frame(nil), it.frames...), frame{fn: callee, call: c, ret: b, idx: idx + 1})
+						if in == x.From {
+							st.armed = true
+						}
+						work = append(work, workItem{block: callee.Blocks[0], st: st, trace: it.trace, frames: nf})
+						stopped = true
+						break
+					}
 					if _, isDefer := in.(*ssa.Defer); !isDefer {
 						if _, isGo := in.(*ssa.Go); !isGo && x.callWritesMemory(c) {
 							x.invalidateOnCall(c, st)
@@ -898,7 +1124,7 @@ func (x *Explorer) Run() []Hit {
 				}
 				x.define(in, st)
 				if v, ok := in.(ssa.Value); ok && len(x.valPin) > 0 {
-					if want, pinned := x.valPin[v.Name()]; pinned {
+					if want, pinned := x.valPin[x.rn(v)]; pinned {
 						k := x.key(v, st)
 						if got, known := truthOfKey(k, st); known {
 							if got != want {
@@ -912,9 +1138,12 @@ func (x *Explorer) Run() []Hit {
 							}
 							st.Facts[k] = want != neg
 						}
-						st.Facts["r:"+v.Name()] = want
+						st.Facts["r:"+x.rn(v)] = want
 					}
 				}
+			}
+			if in == x.From {
+				st.armed = true
 			}
 			if stopped {
 				break
@@ -925,6 +1154,44 @@ func (x *Explorer) Run() []Hit {
 	return x.Hits
 }
 
+// hasHelperReg: key mentions a register of the helper with suffix hid (_hK).
+func hasHelperReg(k, hid string) bool {
+	for i := 0; ; {
+		j := strings.Index(k[i:], hid)
+		if j < 0 {
+			return false
+		}
+		j += i + len(hid)
+		if j >= len(k) || k[j] < '0' || k[j] > '9' {
+			return true
+		}
+		i = j
+	}
+}
+
+// appendTr extends the block trace (only blocks of the explored function are
+// listed; helper blocks would be meaningless in a report).
+func (x *Explorer) appendTr(t []int, b *ssa.BasicBlock, top bool) []int {
+	if !top {
+		return t
+	}
+	return appendTrace(t, b.Index)
+}
+
+// nnsReg: the (qualified) register is a call to a module function returning
+// (T, error) with T non-nil on success.
+func (x *Explorer) nnsReg(reg string) bool {
+	b, ok := x.regBlock[reg]
+	if !ok {
+		return false
+	}
+	base := reg
+	if i := strings.Index(reg, "_h"); i > 0 {
+		base = reg[:i]
+	}
+	return x.P.nonNilOnSuccessReg(b.Parent(), base)
+}
+
 func appendTrace(t []int, b int) []int {
 	n := make([]int, len(t)+1)
 	copy(n, t)
@@ -933,19 +1200,7 @@ func appendTrace(t []int, b int) []int {
 }
 
 func (x *Explorer) allocByName(name string) *ssa.Alloc {
-	for _, b := range x.Fn.Blocks {
-		for _, in := range b.Instrs {
-			if a, ok := in.(*ssa.Alloc); ok && a.Name() == name {
-				return a
-			}
-		}
-	}
-	for _, l := range x.Fn.Locals {
-		if l.Name() == name {
-			return l
-		}
-	}
-	return nil
+	return x.allocs[name]
 }
 
 func (x *Explorer) enterBlock(b, pred *ssa.BasicBlock, st *State) {
@@ -970,10 +1225,10 @@ func (x *Explorer) enterBlock(b, pred *ssa.BasicBlock, st *State) {
 			if !ok {
 				break
 			}
-			u := upd{name: phi.Name()}
+			u := upd{name: x.rn(phi)}
 			if pi >= 0 && (!isNumeric(phi.Type()) || !InCycle(b)) {
 				k := x.key(phi.Edges[pi], st)
-				if !mentions(k, phi.Name()) && len(k) <= maxKeyLen {
+				if !mentions(k, x.rn(phi)) && len(k) <= maxKeyLen {
 					u.key, u.ok = k, true
 					if len(regsOf(k)) > 0 {
 						// the incoming value mentions registers that may
@@ -983,15 +1238,15 @@ func (x *Explorer) enterBlock(b, pred *ssa.BasicBlock, st *State) {
 						for _, src := range []map[string]bool{st.pin, st.Facts} {
 							for fk, fv := range src {
 								if mentions(fk, k) {
-									u.facts[replaceTok(fk, k, phi.Name())] = fv
+									u.facts[replaceTok(fk, k, x.rn(phi))] = fv
 								}
 							}
 						}
 						if nonNilKey(k, st) {
-							u.facts[eqKey(phi.Name(), "nil")] = false
+							u.facts[eqKey(x.rn(phi), "nil")] = false
 						}
 						if tv, known := truthOfKey(k, st); known {
-							u.facts[phi.Name()] = tv
+							u.facts[x.rn(phi)] = tv
 						}
 					}
 				}
@@ -1003,14 +1258,14 @@ func (x *Explorer) enterBlock(b, pred *ssa.BasicBlock, st *State) {
 	// here (SSA): forget what is known about them so that paths merge.
 	dead := func(k string) bool {
 		for _, r := range regsOf(k) {
-			if db, ok := x.regBlock[r]; ok && db != b && !db.Dominates(b) {
+			if db, ok := x.regBlock[r]; ok && db.Parent() == b.Parent() && db != b && !db.Dominates(b) {
 				return true
 			}
 		}
 		return false
 	}
 	for r, k := range st.alias {
-		if db, ok := x.regBlock[r]; (ok && db != b && !db.Dominates(b)) || dead(k) {
+		if db, ok := x.regBlock[r]; (ok && db.Parent() == b.Parent() && db != b && !db.Dominates(b)) || dead(k) {
 			delete(st.alias, r)
 		}
 	}
@@ -1025,7 +1280,7 @@ func (x *Explorer) enterBlock(b, pred *ssa.BasicBlock, st *State) {
 		}
 	}
 	for r := range st.phiSrc {
-		if db, ok := x.regBlock[r]; ok && db != b && !db.Dominates(b) {
+		if db, ok := x.regBlock[r]; ok && db.Parent() == b.Parent() && db != b && !db.Dominates(b) {
 			delete(st.phiSrc, r)
 		}
 	}
@@ -1033,7 +1288,7 @@ func (x *Explorer) enterBlock(b, pred *ssa.BasicBlock, st *State) {
 	defs := map[string]bool{}
 	for _, in := range b.Instrs {
 		if v, ok := in.(ssa.Value); ok {
-			defs[v.Name()] = true
+			defs[x.rn(v)] = true
 		}
 	}
 	if len(defs) > 0 && (len(st.alias) > 0 || len(st.Facts) > 0 || len(st.mem) > 0) {
@@ -1096,7 +1351,7 @@ func (x *Explorer) doStore(s *ssa.Store, st *State) {
 				continue
 			case *ssa.Alloc:
 				if y.Parent() == x.Fn {
-					localRoot = y.Name()
+					localRoot = x.rn(y)
 				}
 			}
 			break
@@ -1185,7 +1440,7 @@ func (x *Explorer) invalidateOnCall(c ssa.CallInstruction, st *State) {
 	}
 }
 
-func (x *Explorer) branch(i *ssa.If, b *ssa.BasicBlock, st *State, trace []int, work *[]workItem) {
+func (x *Explorer) branch(i *ssa.If, b *ssa.BasicBlock, st *State, trace []int, work *[]workItem, frames []frame) {
 	k := x.key(i.Cond, st)
 	val, known := x.Truth(i.Cond, st)
 	neg := false
@@ -1200,14 +1455,14 @@ func (x *Explorer) branch(i *ssa.If, b *ssa.BasicBlock, st *State, trace []int, 
 			ns = st.clone()
 			ns.Facts[base] = truth != neg
 			if _, isInstr := i.Cond.(ssa.Instruction); isInstr && strings.Contains(base, "*") {
-				ns.Facts["r:"+i.Cond.Name()] = truth
+				ns.Facts["r:"+x.rn(i.Cond)] = truth
 			}
 			// (call#k == nil) learnt true for the error result of a module
 			// function whose other result is non-nil on success
 			if truth != neg && strings.HasSuffix(base, "==nil)") && strings.HasPrefix(base, "(t") {
 				if i := strings.Index(base, "#"); i > 0 {
 					reg := base[1:i]
-					if x.P.nonNilOnSuccessReg(x.Fn, reg) {
+					if x.nnsReg(reg) {
 						ns.Facts["("+reg+"#0==nil)"] = false
 					}
 				}
@@ -1215,7 +1470,7 @@ func (x *Explorer) branch(i *ssa.If, b *ssa.BasicBlock, st *State, trace []int, 
 		} else if !known {
 			ns = st.clone()
 		}
-		*work = append(*work, workItem{block: b.Succs[succ], pred: b, st: ns, trace: appendTrace(trace, b.Succs[succ].Index)})
+		*work = append(*work, workItem{block: b.Succs[succ], pred: b, st: ns, trace: x.appendTr(trace, b.Succs[succ], len(frames) == 0), frames: frames})
 	}
 	if known {
 		if val {
@@ -1300,7 +1555,7 @@ func (p *Prog) nonNilOnSuccessReg(fn *ssa.Function, reg string) bool {
 	m, ok := nnsRegCache[key]
 	if !ok {
 		m = map[string]bool{}
-		Instrs(fn, func(in ssa.Instruction) {
+		InstrsShallow(fn, func(in ssa.Instruction) {
 			call, ok := in.(*ssa.Call)
 			if !ok {
 				return
